@@ -10,6 +10,7 @@ import traceback
 
 from verif import grammar as G
 from verif.bounded import BoundedCheck, BoundedResult, Violation
+from contracts.c13_effects import CONTRACTS as EFFECT_CONTRACTS
 from verif.spec import PropertySpec
 
 ALPHABET = ['Y', 'x', '1', '_', ' ', '\n', '=', '+', '-', '*', '/', '.', ',', '(', ')', '[', ']', '{', '}', '<', '>', '`', '#', "'", 'é']
@@ -168,9 +169,12 @@ class ParserTotal(BoundedCheck):
 
 NSHARDS = 14
 PROPERTY = PropertySpec(
-    id='C13', contracts=[], bounded=[ParserTotal(i, NSHARDS) for i in range(NSHARDS)], level='exploration',
-    explanation='bounded: exhaustive short strings and mutated scripts through the real parse_model / build_model',
-    level_text='bounded run-time contract (stand-in): every string of length <= 4 over the 25 characters that drive the parser\'s regexes and counters, plus '
+    id='C13', contracts=list(EFFECT_CONTRACTS), bounded=[ParserTotal(i, NSHARDS) for i in range(NSHARDS)], level='other',
+    explanation='Effect contract decided on the ast of the real parse_model / build_model: parse_model exec()s translated statement text with handlers for NameError and '
+                'SyntaxError only (recorded findings F13 / F13b, re-checked on every run); build_model executes only the class-definition text and turns SyntaxError into '
+                'BuildError. Totality, the raises clause on concrete inputs and the statement-count clause are decided by the bounded exhaustive run: every string of '
+                'length <= 4 over the 25 characters that drive the regexes and counters, plus mutated valid scripts.',
+    level_text='syntactic effect obligations on the real ast + bounded run-time contract (stand-in): every string of length <= 4 over the 25 characters that drive the parser\'s regexes and counters, plus '
                'mutation-fuzzed valid scripts: exception class, side-effect canaries (print, sys.modules, cwd), build + instantiate when parsing returns, '
                'statement count against an independent splitter; totality of the regex engine cannot be proved by contracts on fsic functions',
     level_note='bound: length 4 (quick) / 5 (thorough); termination is observed, not proved',
